@@ -2,7 +2,7 @@
 
 run_model_no_trade driven with the per-country computation replaced at the seam run_optimizer_for_country by a
 deterministic stand-in; every selection pattern (absent / named / '!'-named per country) over a 4-country universe
-x 3 fraction tables; the same oracle on real, unstubbed runs as conformance of the stand-in."""
+x 5 fraction tables (two of them with failing countries); the same oracle on real, unstubbed runs as conformance of the stand-in."""
 import itertools
 
 from .. import common, options, supplies
@@ -18,6 +18,12 @@ class _Stub:
 
 
 def fraction_for(iso_index, table):
+    """tables 0-2: every country answers; tables 3-4: some countries report a failed run (NaN), which the runner lists
+    under "Failed Countries" and must leave out of the population, the fed population and the results alike"""
+    if table >= 3:
+        if (iso_index + table) % 3 == 0:
+            return float("nan")
+        return FRACTIONS[(iso_index + table) % 4]
     return FRACTIONS[(iso_index * (table + 1) + table) % 4]
 
 
@@ -72,8 +78,9 @@ def check_call(Runner, tab, lst, table, real=False):
     if sorted(ran) != sorted(sel):
         vs.append(violation("selection_rule", key, "list %s ran %s, documented rule selects %s" % (list(lst), sorted(set(ran) ^ set(sel))[:8], len(sel)), rp))
         return vs, None
+    sel = [i for i in sel if fr[i] == fr[i]]          # a run that reported failure (NaN) is outside aggregate and results
     if sorted(results.keys()) != sorted(name[i] for i in sel) or len(results) != len(sel):
-        vs.append(violation("each_selected_country_once", key, "results hold %d entries for %d selected countries" % (len(results), len(sel)), rp))
+        vs.append(violation("each_selected_country_once", key, "results hold %d entries for %d selected countries that ran" % (len(results), len(sel)), rp))
     want_pop = sum(pop[i] for i in sel)
     want_fed = sum(pop[i] * min(1.0, fr[i]) for i in sel)
     if not common.close(net_pop, want_pop, rel=1e-12) or not common.close(net_pop_fed, want_fed, rel=1e-9):
@@ -98,7 +105,7 @@ def patterns():
 
 
 def run(tier, seed):
-    jobs = [(p, t, False) for p in patterns() for t in range(3)]
+    jobs = [(p, t, False) for p in patterns() for t in range(5)]
     real = [(("USA", "LUX"), 0, True), (("ARG", "!USA"), 0, True), (("!USA",) if tier == "thorough" else ("SWT",), 0, True)]
     res = common.pmap(job, jobs + real, init_fn=supplies.init, chunksize=1)
     vs = [v for r in res for v in r["v"]]
@@ -106,7 +113,7 @@ def run(tier, seed):
            "traces_validated_against_impl": len(res), "distinct_outcomes": len({r["agg"] for r in res}),
            "stubbed_calls": len(jobs), "real_unstubbed_calls": len(real),
            "bound": {"selection": "every pattern absent / named / '!'-named per country over %s (81 lists: empty, inclusion, exclusion, mixed)" % UNIVERSE,
-                     "fractions": "3 assignment tables over %s" % (list(FRACTIONS),), "real": [list(r[0]) for r in real]},
+                     "fractions": "3 assignment tables over %s + 2 tables in which every third country reports a failed run (NaN)" % (list(FRACTIONS),), "real": [list(r[0]) for r in real]},
            "alphabet": "a state is one selected country row contributing to the aggregate; a transition one per-country step of run_model_no_trade",
            "samples": [{"selection": list(jobs[5][0]), "table": 0}, {"selection": list(jobs[-1][0]), "table": 2}, {"selection": ["USA", "LUX"], "real": True}],
            "caps_hit": []}
